@@ -17,7 +17,7 @@ def apply(tree, dst, here):
         if not os.path.exists(up):
             continue
         u = json.load(open(up))
-        if u.get("disabled"):
+        if u.get("disabled") and pid not in os.environ.get("VERIF_DEV_UNITS", "").split(","):
             continue
         lost = []
         for rt in u.get("retarget", []):
